@@ -3,6 +3,7 @@
 package netpoll
 
 import (
+	"errors"
 	"context"
 	"net"
 	"os"
@@ -145,12 +146,17 @@ func verifTCPListenerFile(l *net.TCPListener) (*os.File, error) {
 	verifFD.fileOpen = true
 	return new(os.File), nil
 }
+// (package net's own variables are not initialised in the interpreter: a harness error stands in)
+var verifErrLnClosed = errors.New("use of closed network connection")
+
 func verifTCPListenerClose(l *net.TCPListener) error {
 	if verifFD.lnOpen {
 		verifFD.close(verifFD.lnFd, fdStdlib, "C15/net.Listener.Close")
 		verifFD.lnOpen = false
+		return nil
 	}
-	return nil
+	// as package net: closing a closed listener is an error
+	return verifErrLnClosed
 }
 func verifTCPListenerAddr(l *net.TCPListener) net.Addr { return verifAddr{} }
 func verifUnixListenerFile(l *net.UnixListener) (*os.File, error) {
@@ -165,8 +171,10 @@ func verifUnixListenerClose(l *net.UnixListener) error {
 	if verifFD.lnOpen {
 		verifFD.close(verifFD.lnFd, fdStdlib, "C15/net.Listener.Close")
 		verifFD.lnOpen = false
+		return nil
 	}
-	return nil
+	// as package net: closing a closed listener is an error
+	return verifErrLnClosed
 }
 func verifUnixListenerAddr(l *net.UnixListener) net.Addr { return verifAddr{} }
 
@@ -191,7 +199,7 @@ func (t *verifFdTab) checkAllClosed(label string) {
 
 // ConvertListener + Close for a TCP (0) or unix (1) listener.
 //
-//verif:bounds one listener lifecycle; File() may fail; after every close the number may be re-issued to a foreign owner
+//verif:bounds one listener lifecycle; File() may fail; the caller may close its own net.Listener first; Close may be called twice; after every close the number may be re-issued to a foreign owner
 //verif:param 0 1
 //verif:loop 20
 //verif:replay interp
@@ -214,7 +222,14 @@ func verifHarness_C15_listener(kind int) {
 		return
 	}
 	verifReach("converted")
+	if verifNondetBool("caller.closes.first") {
+		// the caller closes its own net.Listener before the netpoll one
+		l.Close()
+	}
 	nl.Close()
+	if verifNondetBool("close.again") {
+		nl.Close()
+	}
 	verifFD.checkAllClosed("C15/listener")
 	verifReach("end")
 }
@@ -257,5 +272,57 @@ func verifHarness_C15_socket() {
 	// a second Close is harmless
 	nfd.Close()
 	verifFD.checkAllClosed("C15/socket-closed-again")
+	verifReach("end")
+}
+
+// Accept path: a connection accepted by the server and rejected by OnPrepare (or accepted and
+// later closed by the user): its descriptor is closed exactly once. The listener is a ghost.
+type verifLn15 struct{}
+
+func (l *verifLn15) Accept() (net.Conn, error) { return nil, nil }
+func (l *verifLn15) Close() error              { return nil }
+func (l *verifLn15) Addr() net.Addr            { return verifAddr{} }
+func (l *verifLn15) Fd() int                   { return 2 }
+
+//verif:bounds one accepted connection; OnPrepare closes it or not; the user closes it afterwards or not
+//verif:loop 40
+//verif:replay interp
+func verifHarness_C15_accept() {
+	verifFD = verifFdNew()
+	verifK = &verifKMon{}
+	runner_RunTask_set()
+	pollmanager = newManager(1)
+	pollmanager.Pick()
+	for verifRunPending() {
+	}
+	// descriptors opened so far belong to the poller; forget them (they are not the subject)
+	verifFD = verifFdNew()
+	fd := verifFD.alloc(fdNetpoll)
+	reject := verifNondetBool("onprepare.closes")
+	opts := &options{}
+	var accepted Connection
+	opts.onPrepare = func(c Connection) context.Context {
+		accepted = c
+		if reject {
+			c.Close()
+		}
+		return nil
+	}
+	s := newServer(&verifLn15{}, opts, func(err error) {})
+	nfd := newNetFD(fd, 2, 1, "tcp")
+	nfd.localAddr = verifAddr{}
+	nfd.remoteAddr = verifAddr{}
+	s.onAccept(nfd)
+	for verifRunPending() {
+	}
+	if !reject {
+		// (registration may have failed: then init has closed the connection already)
+		// the user closes the tracked connection
+		accepted.Close()
+		for verifRunPending() {
+		}
+	}
+	verifAssert(verifFD.closes[fd] == 1, "C15/accepted-descriptor-not-closed-exactly-once")
+	verifFD.checkAllClosed("C15/accept")
 	verifReach("end")
 }
